@@ -277,25 +277,21 @@ theorem alias_name_regression :
     ∧ apiWF classAliasNameApi = true ∧ errOf (importFrom (pyModules classAliasNameApi) "n") = none := by
   refine ⟨by decide, by decide, by decide, by decide⟩
 
-/-- a route attribute holding a union tag of the union `m.U` (the route schema's type), set on a route of `m`
-itself and on a route of a namespace `files` that does not import `m` -/
+/-- a route attribute holding a union tag: `TagRef(Union(...), 'tag')` is printed into the module (listed finding
+D37; printing it as `[ns.]U.tag` was tried and withdrawn: the import it needs can close an import cycle) -/
 def tagRefAttrApi : Api := { namespaces := [
-  { name := "m", types := [{ isStruct := false, name := "U", fields := [{ name := "x", ty := .void }, { name := "y", ty := .void }] }],
-    routes := [{ name := "r", attrs := [("mode", .tagRef (.user "m" "U") "y")] }] }] }
+  { name := "n", routes := [{ name := "r", attrs := [("mode", .tagRef)] }] }] }
 
-def tagRefAttrForeignApi : Api := { namespaces := [
-  { name := "m", types := [{ isStruct := false, name := "U", fields := [{ name := "x", ty := .void }, { name := "y", ty := .void }] }] },
-  { name := "files", routes := [{ name := "r", attrs := [("mode", .tagRef (.user "m" "U") "y")] }] }] }
+/-- a Timestamp route attribute (regression: `datetime` is now imported by the module) -/
+def timestampAttrApi : Api := { namespaces := [
+  { name := "n", routes := [{ name := "r", attrs := [("ts", .timestamp)] }] }] }
 
 set_option maxRecDepth 100000 in
-/-- A union-tag route attribute is printed as `[ns.]U.tag` (regression: it used to be printed as `TagRef(...)`);
-the clause of `apiWF` that the union's namespace is imported by the route's namespace is needed: the compiler records
-no import for the type of a route attribute. -/
+/-- The hypothesis that no route attribute is a union tag is needed; a Timestamp attribute is fine. -/
 theorem route_attr_witness :
-    apiWF tagRefAttrApi = true ∧ errOf (importFrom (pyModules tagRefAttrApi) "m") = none
-    ∧ apiWF tagRefAttrForeignApi = false
-    ∧ errOf (importFrom (pyModules tagRefAttrForeignApi) "files")
-        = some (.nameError "files" ⟨some "m", "U", some "y"⟩) := by
+    apiWF tagRefAttrApi = false
+    ∧ errOf (importFrom (pyModules tagRefAttrApi) "n") = some (.nameError "n" ⟨none, "TagRef", none⟩)
+    ∧ apiWF timestampAttrApi = true ∧ errOf (importFrom (pyModules timestampAttrApi) "n") = none := by
   refine ⟨by decide, by decide, by decide, by decide⟩
 
 end StoneVerif.C09
